@@ -327,10 +327,15 @@ def check_wrappers(run, jax, jnp, ex, rng, tier):
 def check_dtypes(run, jax, jnp, ex):
     """rollout / repeat leave the dtype of every leaf alone (complex Fourier-space states, integer counters, mixed pytrees), as the naive
     loop does, for every flag combination."""
+    # the integer leaves hold values no narrower float can represent (2^24 + 1 in int32, 2^31 + ... in uint32, 2^53 + 1 in int64): a utility that
+    # moves the leaves of a mixed pytree through a common buffer changes them
     def step(s):
-        return {"u": s["u"] * (0.5 + 0.25j) if jnp.iscomplexobj(s["u"]) else s["u"] * 0.5, "step": s["step"] + 1}
+        return {"u": s["u"] * (0.5 + 0.25j) if jnp.iscomplexobj(s["u"]) else s["u"] * 0.5, "step": s["step"] + 1,
+                "key": s["key"] * jnp.uint32(3) + jnp.uint32(1), "big": s["big"] + 2}
+    LEAVES = ("u", "step", "key", "big")
     for udt in (jnp.complex128, jnp.float64, jnp.float32, jnp.complex64):
-        s0 = {"u": jnp.arange(1, 4).astype(udt), "step": jnp.asarray(0, dtype=jnp.int32)}
+        s0 = {"u": jnp.arange(1, 4).astype(udt), "step": jnp.asarray(2 ** 24 + 1, dtype=jnp.int32),
+              "key": jnp.asarray([2 ** 31 + 12345, 7], dtype=jnp.uint32), "big": jnp.asarray(2 ** 53 + 1, dtype=jnp.int64)}
         for n in (0, 1, 3):
             for init in (False, True):
                 run.case(("dtype", str(udt), n, init))
@@ -345,7 +350,7 @@ def check_dtypes(run, jax, jnp, ex):
                 for _ in range(n):
                     cur = step(cur)
                     want.append(cur)
-                for leaf in ("u", "step"):
+                for leaf in LEAVES:
                     got = np.asarray(trj[leaf])
                     ref = np.stack([np.asarray(w[leaf]) for w in want]) if want else np.zeros((0,) + np.asarray(s0[leaf]).shape, dtype=np.asarray(s0[leaf]).dtype)
                     if got.dtype != ref.dtype or got.shape != ref.shape or not np.array_equal(got, ref):
@@ -353,6 +358,21 @@ def check_dtypes(run, jax, jnp, ex):
                     gf = np.asarray(fin[leaf])
                     if gf.dtype != np.asarray(cur[leaf]).dtype or not np.array_equal(gf, np.asarray(cur[leaf])):
                         run.violation(dict(key, mode=f"repeat leaf {leaf}"), {"got_dtype": str(gf.dtype)})
+                # windows of the mixed trajectory: every leaf, every window length, value and dtype exactly as the contiguous slices
+                T = n + (1 if init else 0)
+                for sl in range(1, T + 1):
+                    run.case(("dtype-windows", str(udt), n, init, sl))
+                    try:
+                        win = ex.stack_sub_trajectories(trj, sl)
+                    except Exception as e:  # noqa: BLE001
+                        run.violation(dict(key, mode="stack_sub_trajectories raised", sub_len=sl), {"exception": repr(e)[:300]})
+                        continue
+                    for leaf in LEAVES:
+                        full = np.stack([np.asarray(w[leaf]) for w in want])
+                        ref = np.stack([full[i:i + sl] for i in range(T - sl + 1)])
+                        got = np.asarray(win[leaf])
+                        if got.dtype != ref.dtype or got.shape != ref.shape or not np.array_equal(got, ref):
+                            run.violation(dict(key, mode=f"windows leaf {leaf}", sub_len=sl), {"got_dtype": str(got.dtype), "want_dtype": str(ref.dtype), "shape": list(got.shape)})
 
 
 def check_long_horizons(run, jnp, ex):
